@@ -62,10 +62,13 @@ def evaluate(e, leaf, depth=0):
 class Samples(object):
     """per representative value: the refined graph and the set of reachable MIR blocks"""
 
-    def __init__(self, ctx, body, atom, values):
-        """atom(expr, sample) -> int | None gives the value of the leaves (the length, the bound)"""
+    def __init__(self, ctx, body, atom, values, switch_eval=None):
+        """atom(expr, sample) -> int | None gives the value of the leaves (the length, the bound);
+        switch_eval(expr, labels, sample) -> labels taken | None decides non-comparison tests (e.g. the Option returned
+        by `split_at_checked(n)` is Some iff the length is at least n)"""
         self.body = body
         an = ctx.an(body)
+        self.decided_switches = set()
         self.cmp = {}     # (bb, i) -> (op, a_expr, b_expr)
         cmplocals = set()
         for blk in body.blocks:
@@ -108,7 +111,22 @@ class Samples(object):
                 if a is None or b is None:
                     return None
                 return OPS[c[0]](a, b)
-            g = Graph(body, self.flags, hook=hook)
+            swcache = {}
+
+            def swhook(bb, v=v, swcache=swcache):
+                if switch_eval is None:
+                    return None
+                if bb not in swcache:
+                    r = None
+                    if not body.is_noise(body.blocks[bb].term):
+                        e, ls = an.switch_info(bb, opt=True)
+                        chosen = switch_eval(e, ls, v)
+                        if chosen is not None:
+                            r = [tb for tb, l in ls.items() if any(x in chosen for x in l)]
+                            self.decided_switches.add(bb)
+                    swcache[bb] = r
+                return swcache[bb]
+            g = Graph(body, self.flags, hook=hook, swhook=swhook)
             self.graphs[v] = g
             self.reach[v] = set(g.bb(n) for n in g.reachable())
 
